@@ -689,6 +689,8 @@ func c13(c *Ctx) (*report.Result, error) {
 			res.Undec("O13.9", "skip-list obligations of O12.3", "", fmt.Sprintf("%d imported, at least 10 expected", n))
 		}
 	}
+	res.RuleDoc["O13.10"] = "every blob is looked into before it is passed on: translateOneDataBlob returns a blob undecoded (with a nil error) only if it is nil or empty (same analysis as O12.4 / O14.2) - a blob that is waved through by its encoding label keeps the names the rest of the message had mapped, and the round trip does not restore them"
+	checkBlobExamined(c, res, "O13.10")
 	res.RuleDoc["O13.7"] = "translation, access control and repair keep no memory between messages: no shipped function of the interceptor, proto/compat, auth and collect packages stores into package-level state, receiver fields or sync.Maps after construction - a cache keyed by message type or content makes the treatment of one message depend on the ones before it"
 	checkStateless(c, res, "O13.7", []string{"interceptor", "proto/compat", "auth", "collect"}, map[string]string{})
 	res.RuleDoc["O13.8"] = "no swallowed error in the files the mechanism lives in: no function returns a nil error on a path on which an error obtained from a call is known to be non-nil (io.EOF from a stream Recv, the normal end of a receive loop, is the one accepted idiom)"
